@@ -39,7 +39,10 @@ def main(families):
             ok, _ = cs.check_prediction(chk, prop, rs, c)
             pred_ok = ok
             if ok and c["err"] == "none" and list(c["shape"][1:]) == [c["ny"], c["nx"]]:
-                cs.REPLAYS[prop](chk, rs, c, cs.VARIANTS_QUICK)
+                try:
+                    cs.REPLAYS[prop](chk, rs, c, cs.VARIANTS_QUICK)
+                except Exception as e:
+                    chk.violations.append({"what": "exception %r" % e})
             elif ok and c["err"] == "none":
                 # wrong output shape: the identity cannot be evaluated; the model says ShapeOrError fails
                 chk.violations.append({"what": "shape"})
